@@ -153,7 +153,7 @@ pub fn test_write(case: &WriteCase, st: &mut Stats, counting: bool) -> CaseResul
         let root = built.root.clone();
         let interesting;
         {
-            let mut h = if case.append { p.append_file() } else { p.create_file() }.map_err(|e| format!("opening the handle failed: {}", e))?;
+            let mut h = crate::util::hold(if case.append { p.append_file() } else { p.create_file() }.map_err(|e| format!("opening the handle failed: {}", e))?);
             let mut check = |m: &[u8]| -> Result<(), String> {
                 let got = fresh_read(&root)?;
                 if got != m {
@@ -172,7 +172,7 @@ pub fn test_write(case: &WriteCase, st: &mut Stats, counting: bool) -> CaseResul
                 let a = run_write_script(&mut h, &mut model, &case.script[..k], allow_seek, &mut trace, &mut check)?;
                 {
                     trace.push("-- second handle (create_file) opened on the same file".into());
-                    let mut h2 = p.create_file().map_err(|e| format!("opening a second handle failed: {}", e))?;
+                    let mut h2 = crate::util::hold(p.create_file().map_err(|e| format!("opening a second handle failed: {}", e))?);
                     let mut model2: Cursor<Vec<u8>> = Cursor::new(vec![]);
                     run_write_script(&mut h2, &mut model2, &case.second, true, &mut trace, &mut check)?;
                     drop(h2);
